@@ -35,26 +35,36 @@ Keys == {-1, 0, 1, 2}
 Elems(xs) == [p \in 1..Len(xs) |-> [k |-> xs[p], p |-> p]]
 K(e) == IF e.k = -1 THEN 1 ELSE e.k
 Truthy(e) == e.k > 0                        \* bool(element): None and 0 / objects with k = 0 are falsy
-Enc(e, ek) == IF e.k = -1 THEN <<-1, 0>> ELSE IF ek = "int" THEN <<e.k, 0>> ELSE <<e.k, e.p>>
+(* element kinds whose members are EQUAL (==) although the key/predicate tells them apart - the built-ins work on
+   positions and identities, never on ==:  "eq1": key 0/1/2 is the value 1 / True / 1.0;  "eq0": 0 / False / 0.0;
+   "rec": like "obj" but every two of them compare equal (a permissive __eq__) and hash alike *)
+EqValues == {"eq0", "eq1"}
+EqKinds == {"rec", "eq0", "eq1"}
+Enc(e, ek) == IF e.k = -1 THEN <<-1, 0>> ELSE IF ek \in {"int", "eq0", "eq1"} THEN <<e.k, 0>> ELSE <<e.k, e.p>>
 EncAll(es, ek) == [j \in 1..Len(es) |-> Enc(es[j], ek)]
 
 (* ---------------------------------------------------------------- the built-ins, transcribed *)
 (* F(m, e): the sort key of e.  m = "K": the key function;  m = "own": key=None, the element itself is compared.
    P(m, e): the predicate.      m = "K": truth of K(e);      m = "own": predicate None, truth of the element. *)
-F(m, e) == IF m = "K" THEN K(e) ELSE e.k
-P(m, e) == IF m = "K" THEN K(e) > 0 ELSE Truthy(e)
+(* "flat": key=None over elements that are all equal (eq0 / eq1): nothing precedes anything;
+   "all" / "nil": predicate None over eq1 (every non-None element is truthy) / eq0 (every element is falsy) *)
+F(m, e) == IF m = "K" THEN K(e) ELSE IF m = "flat" THEN 0 ELSE e.k
+P(m, e) == CASE m = "K" -> K(e) > 0 [] m = "all" -> e.k # -1 [] m = "nil" -> FALSE [] OTHER -> Truthy(e)
+OwnMode(ek) == IF ek \in EqValues THEN "flat" ELSE "own"
+TruthMode(ek) == IF ek = "eq1" THEN "all" ELSE IF ek = "eq0" THEN "nil" ELSE "own"
 Map(es) == [j \in 1..Len(es) |-> <<K(es[j]) + 10, 0>>]
 Filter(m, es) == SelectSeq(es, LAMBDA e : P(m, e))
 FilterFalse(m, es) == SelectSeq(es, LAMBDA e : ~P(m, e))
-InsertAt(s, j, e) == SubSeq(s, 1, j - 1) \o <<e>> \o SubSeq(s, j, Len(s))
-(* sorted(): stable for reverse=False and for reverse=True - an element goes behind every element it does not
-   strictly precede, so elements with equal keys keep their input order in both directions *)
-Ins(m, s, e, rev) ==
-  LET before == {j \in 1..Len(s) : IF rev THEN F(m, s[j]) < F(m, e) ELSE F(m, s[j]) > F(m, e)} IN
-  IF before = {} THEN Append(s, e) ELSE InsertAt(s, CHOOSE j \in before : \A l \in before : j <= l, e)
-RECURSIVE SortFrom(_, _, _, _, _)
-SortFrom(m, es, j, acc, rev) == IF j > Len(es) THEN acc ELSE SortFrom(m, es, j + 1, Ins(m, acc, es[j], rev), rev)
-StableSort(m, es, rev) == SortFrom(m, es, 1, <<>>, rev)
+(* sorted(): stable for reverse=False and for reverse=True.  The place of an element is the number of elements
+   that go before it: those with a strictly smaller (reverse: strictly greater) key, and those with an EQUAL key
+   that come earlier in the input - equal keys keep their input order in both directions. *)
+Before(m, es, p, q, rev) ==      \* es[q] goes before es[p]
+  \/ (IF rev THEN F(m, es[q]) > F(m, es[p]) ELSE F(m, es[q]) < F(m, es[p]))
+  \/ (F(m, es[q]) = F(m, es[p]) /\ q < p)
+StableSort(m, es, rev) ==
+  LET n == Len(es)
+      rank == [p \in 1..n |-> Cardinality({q \in 1..n : Before(m, es, p, q, rev)})]
+  IN [j \in 1..n |-> es[CHOOSE p \in 1..n : rank[p] = j - 1]]
 FirstMax(m, es) == es[CHOOSE j \in 1..Len(es) : /\ \A l \in 1..Len(es) : F(m, es[l]) <= F(m, es[j])
                                                 /\ \A l \in 1..(j - 1) : F(m, es[l]) < F(m, es[j])]
 FirstMin(m, es) == es[CHOOSE j \in 1..Len(es) : /\ \A l \in 1..Len(es) : F(m, es[l]) >= F(m, es[j])
@@ -62,7 +72,7 @@ FirstMin(m, es) == es[CHOOSE j \in 1..Len(es) : /\ \A l \in 1..Len(es) : F(m, es
 Sift(m, es) == <<Filter(m, es), FilterFalse(m, es)>>
 RetryExecs(k, mt) == IF k + 1 < mt THEN k + 1 ELSE mt            \* min(k+1, max_tries)
 (* comparing the elements themselves (key=None): objects are unorderable, None is unorderable *)
-Unorderable(es, ek) == Len(es) >= 2 /\ (ek = "obj" \/ \E j \in 1..Len(es) : es[j].k = -1)
+Unorderable(es, ek) == Len(es) >= 2 /\ (ek \in {"obj", "rec"} \/ \E j \in 1..Len(es) : es[j].k = -1)
 
 (* ---------------------------------------------------------------- cells *)
 Cell(h, xs, ek, it, form, fk, rev, k, mt, x, ec) ==
@@ -72,7 +82,14 @@ Its == {"list", "tuple", "gen", "iter", "map", "reversed", "chain"}
    a map object, reversed(list), itertools.chain(...) - the built-ins accept them all and so must the helpers *)
 SeqsN(n) == [1..n -> Keys]
 PerElement(h, n) == {Cell(h, xs, "obj", it, "one", fk, 0, 0, 1, "ok", "one") : xs \in SeqsN(n), it \in Its, fk \in {"plain", "block"}}
+                    \cup {Cell(h, xs, ek, it, "one", "plain", 0, 0, 1, "ok", "one") : xs \in SeqsN(n), ek \in EqKinds, it \in {"list", "gen"}}
 NoFunction(h, n, revs) == {Cell(h, xs, ek, it, "one", "none", r, 0, 1, "ok", "one") : xs \in SeqsN(n), ek \in {"obj", "int"}, it \in Its, r \in revs}
+                          \cup {Cell(h, xs, ek, "list", "one", "none", r, 0, 1, "ok", "one") : xs \in SeqsN(n), ek \in EqKinds, r \in revs}
+(* long inputs (more per-element calls than any plausible block size) for the one-batching-round clause *)
+LongSizes == {257, 600}
+Long(n) == [p \in 1..n |-> (p % 4) - 1]
+LongCells(h, n) == IF h = "aretry" THEN {} ELSE
+  {Cell(h, Long(n), "obj", it, "one", "block", r, 0, 1, "ok", "one") : it \in {"list", "gen", "iter"}, r \in (IF h = "asorted" THEN {0, 1} ELSE {0})}
 Extreme(h, n) ==
   PerElement(h, n) \cup NoFunction(h, n, {0})
   \cup (IF n = 0 THEN {} ELSE {Cell(h, xs, ek, "list", "var", fk, 0, 0, 1, "ok", "one") : xs \in SeqsN(n), ek \in {"obj", "int"}, fk \in {"none", "plain", "block"}})
@@ -81,10 +98,12 @@ Extreme(h, n) ==
 HelperNames == {"amap", "afilter", "afilterfalse", "asift", "asorted", "amax", "amin", "aretry"}
 (* the cells of helper h over inputs of length n *)
 CellsOf(h, n) ==
-  CASE h \in {"amap", "afilterfalse", "asift"} -> PerElement(h, n)
+  CASE n > MaxLen -> LongCells(h, n)
+    [] h \in {"amap", "afilterfalse", "asift"} -> PerElement(h, n)
     [] h = "afilter" -> PerElement(h, n) \cup NoFunction(h, n, {0})
     [] h = "asorted" ->
          {Cell(h, xs, "obj", it, "one", fk, r, 0, 1, "ok", "one") : xs \in SeqsN(n), it \in Its, fk \in {"plain", "block"}, r \in {0, 1}}
+         \cup {Cell(h, xs, ek, it, "one", "plain", r, 0, 1, "ok", "one") : xs \in SeqsN(n), ek \in EqKinds, it \in {"list", "gen"}, r \in {0, 1}}
          \cup NoFunction(h, n, {0, 1})
     [] h \in {"amax", "amin"} -> Extreme(h, n)
     [] h = "aretry" ->
@@ -94,7 +113,7 @@ CellsOf(h, n) ==
                     k \in 0..4, mt \in (-1)..4, x \in {"ok", "unlisted"}, ec \in {"one", "tuple"}} :
             c.form = "await" \/ c.fk \in {"proxy", "wrap"}}       \* an @asynq body never runs at call time
 (* stage 0: a stub naming helper and input length (so that TLC's workers share the enumeration); stage 1: a cell *)
-Stubs == {Cell(h, <<>>, "obj", "list", "stub", "none", 0, n, 1, "ok", "one") : h \in (IF Part = "all" THEN HelperNames ELSE {Part}), n \in 0..MaxLen}
+Stubs == {Cell(h, <<>>, "obj", "list", "stub", "none", 0, n, 1, "ok", "one") : h \in (IF Part = "all" THEN HelperNames ELSE {Part}), n \in (0..MaxLen) \cup LongSizes}
 
 (* ---------------------------------------------------------------- prescribed output of a cell *)
 Val(s) == <<"val", s>>
@@ -105,16 +124,16 @@ ExtremeRes(c, es) ==
   ELSE IF Len(es) = 0 THEN Err("ValueError")
   ELSE IF c.fk = "none"
        THEN IF Unorderable(es, c.ek) THEN Err("TypeError")
-            ELSE Val(<<Enc(IF c.h = "amax" THEN FirstMax("own", es) ELSE FirstMin("own", es), c.ek)>>)
+            ELSE Val(<<Enc(IF c.h = "amax" THEN FirstMax(OwnMode(c.ek), es) ELSE FirstMin(OwnMode(c.ek), es), c.ek)>>)
        ELSE Val(<<Enc(IF c.h = "amax" THEN FirstMax("K", es) ELSE FirstMin("K", es), c.ek)>>)
 Res(c) ==
   LET es == Elems(c.xs) IN
   CASE c.h = "amap" -> Val(Map(es))
-    [] c.h = "afilter" -> Val(EncAll(Filter(IF c.fk = "none" THEN "own" ELSE "K", es), c.ek))
+    [] c.h = "afilter" -> Val(EncAll(Filter(IF c.fk = "none" THEN TruthMode(c.ek) ELSE "K", es), c.ek))
     [] c.h = "afilterfalse" -> Val(EncAll(FilterFalse("K", es), c.ek))
     [] c.h = "asift" -> <<"val2", EncAll(Sift("K", es)[1], c.ek), EncAll(Sift("K", es)[2], c.ek)>>
     [] c.h = "asorted" -> IF c.fk = "none"
-                          THEN IF Unorderable(es, c.ek) THEN Err("TypeError") ELSE Val(EncAll(StableSort("own", es, c.rev = 1), c.ek))
+                          THEN IF Unorderable(es, c.ek) THEN Err("TypeError") ELSE Val(EncAll(StableSort(OwnMode(c.ek), es, c.rev = 1), c.ek))
                           ELSE Val(EncAll(StableSort("K", es, c.rev = 1), c.ek))
     [] c.h \in {"amax", "amin"} -> ExtremeRes(c, es)
     [] c.h = "aretry" -> IF c.mt < 1 THEN Err("AssertionError")         \* refused when decorating
@@ -136,11 +155,12 @@ IsSorted(m, r, rev) == \A j, l \in 1..Len(r) : j < l =>
    /\ (IF rev THEN F(m, r[j]) >= F(m, r[l]) ELSE F(m, r[j]) <= F(m, r[l]))
    /\ (F(m, r[j]) = F(m, r[l]) => r[j].p < r[l].p)                 \* stable in both directions
 IsPermutation(r, es) == Len(r) = Len(es) /\ {r[j] : j \in 1..Len(r)} = {es[j] : j \in 1..Len(es)}
-SortOracleOK == stage = 1 => LET es == Elems(cell.xs) IN
-  \A rev \in BOOLEAN, m \in {"K", "own"} : IsSorted(m, StableSort(m, es, rev), rev) /\ IsPermutation(StableSort(m, es, rev), es)
-ExtremesOK == stage = 1 => LET es == Elems(cell.xs) IN Len(es) > 0 => \A m \in {"K", "own"} :
+Small == stage = 1 /\ Len(cell.xs) <= 8       \* the algebra is checked on the short inputs (quadratic in the length)
+SortOracleOK == Small => LET es == Elems(cell.xs) IN
+  \A rev \in BOOLEAN, m \in {"K", "own", "flat"} : IsSorted(m, StableSort(m, es, rev), rev) /\ IsPermutation(StableSort(m, es, rev), es)
+ExtremesOK == Small => LET es == Elems(cell.xs) IN Len(es) > 0 => \A m \in {"K", "own", "flat"} :
   /\ FirstMax(m, es) = Head(StableSort(m, es, TRUE)) /\ FirstMin(m, es) = Head(StableSort(m, es, FALSE))
-PartitionOK == stage = 1 => LET es == Elems(cell.xs) IN \A m \in {"K", "own"} :
+PartitionOK == Small => LET es == Elems(cell.xs) IN \A m \in {"K", "own", "all", "nil"} :
   /\ Sift(m, es)[1] = Filter(m, es) /\ Sift(m, es)[2] = FilterFalse(m, es)
   /\ Len(Filter(m, es)) + Len(FilterFalse(m, es)) = Len(es)
   /\ IsPermutation(Filter(m, es) \o FilterFalse(m, es), es)
